@@ -255,7 +255,10 @@ Definition wire_labels (canon : bool) (n : name) : list Z :=
 Definition to_wire (n : name) (origin : option name) (canon : bool) : res (list Z) :=
   if is_absolute n then Ok (wire_labels canon n)
   else match origin with
-       | Some o => if is_absolute o then Ok (wire_labels canon n ++ wire_labels canon o)
+       | Some o => if is_absolute o then
+                     (* `if len(out) > 255: raise NameTooLong` (fix 2nd commit for C01) *)
+                     if wire_length n + wire_length o >? 255 then Lib eNameTooLong
+                     else Ok (wire_labels canon n ++ wire_labels canon o)
                    else Lib eNeedAbsolute
        | None => Lib eNeedAbsolute
        end.
@@ -290,7 +293,10 @@ Definition to_wire_compress (n : name) (origin : option name) (canon : bool)
            (file : list Z) (t : ctable) : res (list Z * ctable) :=
   if is_absolute n then Ok (tw_loop n canon file t)
   else match origin with
-       | Some o => if is_absolute o then Ok (tw_loop (n ++ o) canon file t) else Lib eNeedAbsolute
+       | Some o => if is_absolute o then
+                     (* the first iteration builds Name(labels[0:]) and so validates n ++ o *)
+                     do nm <- mk_name (n ++ o); Ok (tw_loop nm canon file t)
+                   else Lib eNeedAbsolute
        | None => Lib eNeedAbsolute
        end.
 
